@@ -158,6 +158,33 @@ def transport_cases_two_treatments(tier, rng):
         yield {"nodes": vs, "directed": d, "undirected": u, "X": sorted(xs), "Y": [y], "experiments": {"pi1": [z]}, "surrogates": {"pi1": W}}
 
 
+def transport_cases_two_domains(tier, rng):
+    """3-4 node ADMGs with two source domains that are *both* usable at the same step: each has experiments on a (different) non-empty
+    subset of the treatments and observes (almost) every other node; both orders of the user's dictionaries.  The loop over usable
+    domains in lines 6-7 then has more than one candidate, and what the returned term is tagged with depends on which one
+    succeeded -- not on which one the loop visited last."""
+    import itertools as itt
+    for _ in range(1500 if tier == "quick" else 20000):
+        n = rng.choice([3, 4, 4])
+        vs = oracles.names(n)
+        pairs = list(itt.combinations(vs, 2))
+        order = rng.sample(vs, n)
+        pos = {v: i for i, v in enumerate(order)}
+        d = [[a, b] if pos[a] < pos[b] else [b, a] for a, b in pairs if rng.random() < 0.5]
+        u = [list(e) for e in rng.sample(pairs, rng.choice([0, 0, 1, 1, 2]))]
+        y = rng.choice(vs)
+        xs = rng.sample([v for v in vs if v != y], rng.choice([1, 2, 2]) if n > 2 else 1)
+        z1 = sorted(rng.sample(xs, rng.randint(1, len(xs))))
+        z2 = sorted(rng.sample(xs, rng.randint(1, len(xs))))
+        if rng.random() < 0.3:
+            z2 = sorted(set(z2) | {rng.choice(vs)})
+        exps = {"pi1": z1, "pi2": z2}
+        surr = {p: [v for v in vs if v not in z and rng.random() < 0.9] or [y] for p, z in exps.items()}
+        if rng.random() < 0.5:
+            exps, surr = dict(reversed(list(exps.items()))), dict(reversed(list(surr.items())))
+        yield {"nodes": vs, "directed": d, "undirected": u, "X": sorted(xs), "Y": [y], "experiments": exps, "surrogates": surr}
+
+
 def _eval_tr(c):
     try:
         return c, run_transport(c), None
@@ -203,7 +230,7 @@ def extra(rep, repo, registry, known_open):
                 errs.append(err)
             elif why:
                 fails.append((c, why, "star"))
-        tr_cases = list(transport_cases(rep.tier, rng)) + list(transport_cases_two_treatments(rep.tier, rng))
+        tr_cases = list(transport_cases(rep.tier, rng)) + list(transport_cases_two_treatments(rep.tier, rng)) + list(transport_cases_two_domains(rep.tier, rng))
         for c, why, err in pool.imap_unordered(_eval_tr, tr_cases, chunksize=16):
             if err:
                 errs.append(err)
